@@ -368,10 +368,19 @@ def check_reconf(case, ctx):
         ctx.violation('exact-height', f'{ID}/long-lived-cropper/after-{kind}/crop-has-not-the-configured-height',
                       f'{desc}: the crop has shape {crop.shape}, configured height {cfg["lh"]}')
         return
-    if crop.shape != ref.shape or not (maxdiff(crop, ref) <= 0.2):
+    worst = None
+    if crop.shape == ref.shape:
+        # samples on the very border of the page blend page content with the constant outside it: there a coordinate that moved by round-off
+        # changes the value by a lot - compared are the samples that both crops took from the page proper (all, for the lines inside the page)
+        both = (crop[:, :, 2] > 0.999) & (ref[:, :, 2] > 0.999)
+        nan = np.isnan(crop).any(axis=2) | np.isnan(ref).any(axis=2)
+        sel = both | nan
+        worst = maxdiff(crop[sel], ref[sel])
+    if worst is None or not (worst <= 0.2) or abs(int(both.sum()) - int((ref[:, :, 2] > 0.999).sum())) > 2 * sum(ref.shape[:2]):
         ctx.violation('same-crop-on-every-call', f'{ID}/long-lived-cropper/after-{kind}/crop-differs-from-a-fresh-cropper',
                       f'{desc}: crop {crop.shape}, a cropper freshly constructed with the configuration in force gives {ref.shape}'
-                      + ('' if crop.shape != ref.shape else f' (max difference {maxdiff(crop, ref)})'))
+                      + ('' if worst is None else f' (max difference {worst} on the samples both took from the page, {int(both.sum())} of '
+                                                  f'{int((ref[:, :, 2] > 0.999).sum())})'))
         return
     ctx.outcome(('reconf', crop.shape[0], crop.shape[1]))
     if reused:
